@@ -93,9 +93,10 @@ func c06Run(w *verifrt.World, tier Tier) *RunResult {
 	cfg.UploadDir = simos.Root + "/upload"
 	cfg.Lines = append(cfg.Lines, "SecDataset ds1 `\nevil\nfoo\n`")
 	auditWriter := pick(t, []string{"", "Serial", "Concurrent", "Serial"})
+	auditFormat := pick(t, []string{"JSON", "JSON", "Native"})
 	if auditWriter != "" {
 		cfg.Lines = append(cfg.Lines, "SecAuditEngine On", "SecAuditLogType "+auditWriter, "SecAuditLog "+simos.Root+"/audit/audit.log", "SecAuditLogStorageDir "+simos.Root+"/audit/data",
-			"SecAuditLogParts ABHKZ", "SecAuditLogFormat JSON")
+			"SecAuditLogParts ABHKZ", "SecAuditLogFormat "+auditFormat)
 		// the audit engine / parts must stay as configured for the file check below
 		cfg.Rules = filterRules(cfg.Rules, func(r *RuleSpec) bool {
 			for _, e := range r.Extra {
@@ -302,7 +303,7 @@ func c06Run(w *verifrt.World, tier Tier) *RunResult {
 				}
 			}
 		}
-		auditFilesCheck(res, "C06", auditWriter, simos.Disk(), ids, nil, "("+sched+")")
+		auditFilesCheck(res, "C06", auditWriter, auditFormat, simos.Disk(), ids, nil, "("+sched+")")
 	}
 	return res
 }
